@@ -31,14 +31,18 @@ class UB:
                     self._tmax[k] = None
         return self._tmax[k]
 
-    def field_bound(self, sname, fidx, depth):
+    def field_bound(self, sname, fidx, depth, chain=False):
         """max over all stores in this unit to field #fidx of struct sname (None when some store is unbounded or the
         field may be written through memcpy/memset of the whole struct)"""
         key = (sname, fidx)
         cache = self.__dict__.setdefault('_fb', {})
         if key in cache:
+            if cache[key] == 'INPROG':
+                # the field's own value met again while bounding what is stored into it: carried unchanged
+                # (through merges and width changes only) it adds nothing; through arithmetic it is unbounded
+                return 0 if chain else None
             return cache[key]
-        cache[key] = None       # recursion guard
+        cache[key] = 'INPROG'
         from prov import Prov
         m = self.P.m
         best = 0
@@ -78,7 +82,7 @@ class UB:
             return 64
         return 64
 
-    def ub(self, e, depth=0, seen=None, pure=frozenset()):
+    def ub(self, e, depth=0, seen=None, pure=frozenset(), chain=True):
         """`pure`: phis on the path to here through phi inputs only (a value merely carried round a loop adds nothing)"""
         seen = seen if seen is not None else set()
         if depth > 30:
@@ -87,18 +91,18 @@ class UB:
         if k == 'const':
             return e[1] if e[1] >= 0 else BIG
         if k == 'ext':
-            inner = self.ub(e[3], depth + 1, seen)
+            inner = self.ub(e[3], depth + 1, seen, pure if e[1] == 'zext' else frozenset(), chain and e[1] == 'zext')
             if e[1] == 'zext':
                 return inner
             return inner if inner < (1 << 31) else BIG
         if k == 'trunc':
-            return min(self.ub(e[2], depth + 1, seen), (1 << e[1]) - 1)
+            return min(self.ub(e[2], depth + 1, seen, pure, chain), (1 << e[1]) - 1)
         if k == 'cast':
             return BIG
         if k == 'bin':
             op = e[1]
-            a = self.ub(e[2], depth + 1, seen)
-            b = self.ub(e[3], depth + 1, seen)
+            a = self.ub(e[2], depth + 1, seen, frozenset(), False)
+            b = self.ub(e[3], depth + 1, seen, frozenset(), False)
             if op == 'and':
                 return min(a, b)
             if op in ('or', 'xor'):
@@ -126,7 +130,7 @@ class UB:
                 return a if a < BIG and strip_casts(e[3])[0] == 'const' and strip_casts(e[3])[1] >= 0 and False else BIG
             return BIG
         if k == 'select':
-            return max(self.ub(e[2], depth + 1, seen), self.ub(e[3], depth + 1, seen))
+            return max(self.ub(e[2], depth + 1, seen, frozenset(), chain), self.ub(e[3], depth + 1, seen, frozenset(), chain))
         if k == 'phi':
             bits = e[2].ty[1] if e[2].ty and e[2].ty[0] == 'int' else 64
             if e[1] in pure:
@@ -136,7 +140,7 @@ class UB:
             seen = seen | {e[1]}
             m = 0
             for x, _ in self.P.phi_inputs(e):
-                m = max(m, self.ub(x, depth + 1, seen, pure | {e[1]}))
+                m = max(m, self.ub(x, depth + 1, seen, pure | {e[1]}, chain))
             return min(m, (1 << bits) - 1)
         if k == 'load':
             ins = e[2]
@@ -154,7 +158,7 @@ class UB:
                         pass
             # a struct field reached through a pointer: bounded by everything the unit ever stores into that field
             if a[2] and a[2][-1][0] == 'f' and a[1][0] == 'V':
-                fb = self.field_bound(a[2][-1][1], a[2][-1][2], depth)
+                fb = self.field_bound(a[2][-1][1], a[2][-1][2], depth, chain)
                 if fb is not None:
                     return min(fb, (1 << bits) - 1)
             return (1 << bits) - 1
